@@ -23,6 +23,7 @@ from .. import model as M
 from ..codec import NAMED, TAG_RED, src, unsrc
 from ..common import verdict
 from ..runner import Acc, parallel
+from ..terms import fp
 from ..values import ZOO, cp, missing_variants, perturb
 
 LEAVES = [None, True, False, 0, 1, -7, 2 ** 70, 0.0, 1.5, 2.5e-12, "", "a", b"", b"a", M.FIX_UUID,
@@ -134,6 +135,30 @@ def judge_plain(v, rng, acc=None):
         if not identical(v, o[1]):
             found.append((f"C14|generates-other-value|{type(v).__name__}", src(o[1])))
             break
+    if isinstance(v, (list, dict)):
+        # the caller's container is refused (an unconvertible member), repaired in place and
+        # converted again: a plain value like any other
+        again = copy.deepcopy(v)
+        bad = NAMED["object"]
+        try:
+            if isinstance(again, list):
+                again.append(bad)
+            else:
+                again["zz-bad"] = bad
+            try:
+                from_native(again)
+                found.append((f"C14|non-plain-member-accepted|{type(v).__name__}", keep))
+            except ValueError:
+                pass
+            if isinstance(again, list):
+                again.pop()
+            else:
+                del again["zz-bad"]
+            s2 = from_native(again)
+            if fp(s2) != fp(s):
+                found.append((f"C14|repaired-container-converts-differently|{type(v).__name__}", keep))
+        except Exception as e:  # noqa: BLE001
+            found.append((f"C14|repaired-container-refused:{type(e).__name__}|{type(v).__name__}", keep))
     term = M.native_term(v)
     for w in perturb(v) + missing_variants(v):
         if acc:
